@@ -757,12 +757,41 @@ class Fold:
     # ------------------------------------------------------------------ statements
     def run(self, env=None):
         env = env if env is not None else Env()
+        self.fell_through = True
         try:
             self.stmt(self.f.body, env)
         except Terminated:
-            pass
+            self.fell_through = False
         self.final_env = env
         return self
+
+    def exit_env(self):
+        """the environment at function exit, merged over all returns (and the fall-through end) by their path conditions"""
+        seq = [(g, e) for (_v, g, _s), e in zip(self.returns, self.return_envs)]
+        if self.fell_through:
+            seq.append((None, self.final_env))
+        if not seq:
+            return Env()
+        fin = seq[-1][1].copy()
+        for gds, e in reversed(seq[:-1]):
+            cond = None
+            for c, pol, _n in gds:
+                if isinstance(c, tuple) and c and c[0] in ("loop", "each"):
+                    continue
+                t = c if pol else ("!", c)
+                cond = t if cond is None else ("&&", cond, t)
+            if cond is None:
+                fin = e.copy()
+                continue
+            merged = fin.copy()
+            for key in set(e) | set(fin):
+                a, b = e.get(key), fin.get(key)
+                if a is not None and b is not None and not self.same(a, b):
+                    merged[key] = self.ite(cond, a, b)
+                elif b is None and a is not None:
+                    merged[key] = a
+            fin = merged
+        return fin
 
     def stmts(self, lst, env):
         mark = len(self.guards)
@@ -960,6 +989,27 @@ class Fold:
                 self.end_loop(env)
             env.pop(decl, None)
             return
+        if s["k"] == "rangefor" and s.get("var") is not None:
+            rn = unwrap(s.get("range"))
+            while rn is not None and rn.get("k") in ("stdinitlist", "cast", "construct") and (rn.get("sub") is not None or len(rn.get("args", [])) == 1):
+                rn = unwrap(rn["sub"] if rn.get("sub") is not None else rn["args"][0])
+            if rn is not None and rn.get("k") == "initlist" and 1 <= len(rn.get("args", [])) <= 8 and all(lit_value(a) is not None for a in rn["args"]) \
+                    and s["var"]["decl"] not in self.assigned_in(s["body"]):
+                # for (T v : {c0, c1, ...}) with literal elements: unrolled
+                for a in rn["args"]:
+                    env[s["var"]["decl"]] = self.ev(a, env)
+                    self.begin_loop()
+                    try:
+                        self.stmt(s["body"], env)
+                    except LoopContinue:
+                        self.end_loop(env)
+                        continue
+                    except Terminated:
+                        self.end_loop(env)
+                        break
+                    self.end_loop(env)
+                env.pop(s["var"]["decl"], None)
+                return
         self.loop_id += 1
         lid = "L%d" % s.get("line", self.loop_id)
         k = s["k"]
